@@ -229,15 +229,10 @@ func (r *Runtime) builtin_newSet(args []Value, newTarget *Object) *Object {
 				if adderFn == nil {
 					panic(r.NewTypeError("Set.add in missing"))
 				}
-				if stdArr != nil {
-					for _, item := range stdArr.values {
-						adderFn(FunctionCall{This: o, Arguments: []Value{item}})
-					}
-				} else {
-					r.getIterator(arg, nil).iterate(func(item Value) {
-						adderFn(FunctionCall{This: o, Arguments: []Value{item}})
-					})
-				}
+				// a custom adder may modify the array, so it has to be iterated properly
+				r.getIterator(arg, nil).iterate(func(item Value) {
+					adderFn(FunctionCall{This: o, Arguments: []Value{item}})
+				})
 			}
 		}
 	}
